@@ -817,3 +817,36 @@ Proof.
   unfold pl_run. induction ops as [|o r IH]; simpl; intros pl H; auto.
   apply IH, pl_step_sorted, H.
 Qed.
+
+(* pl[a:b] with 0 <= a <= b : exactly the phases whose id, counted from the first
+   id of arange(first, max + 1), lies in [a, b) -- i.e. ids in [a, b) for a list
+   without not_indexed, ids in [a - 1, b - 1) for a list starting with id -1 *)
+Theorem slice_contiguous pl a b : sortedk pl -> pl <> [] -> 0 <= a -> 0 <= b ->
+  the_result (index pl (KSlice (Some a) (Some b) None))
+    (filter (fun kv => (a <=? fst kv - slice_start pl) && (fst kv - slice_start pl <? b)) pl).
+Proof.
+  intros Hs Hne Ha Hb. cbn [index].
+  set (n := slice_len pl).
+  assert (Hn0 : 0 <= n).
+  { unfold n, slice_len. destruct (ids pl); lia. }
+  assert (Hmax : forall x, In x (ids pl) -> x - slice_start pl < n).
+  { unfold n, slice_len, slice_start. destruct (ids pl) as [|i0 r]; [intros x []|].
+    intros x Hx. destruct (maxZ_ge r i0) as [M1 M2]. rewrite Forall_forall in M2.
+    destruct Hx as [Hx|Hx]; [subst|specialize (M2 _ Hx)]; lia. }
+  assert (Hp : slice_indices n (Some a) (Some b) None
+               = Some (range_from (Z.to_nat n) (Z.min a n) (Z.min b n) 1)).
+  { unfold slice_indices. simpl.
+    replace (a <? 0) with false by (symmetry; apply Z.ltb_ge; lia).
+    replace (b <? 0) with false by (symmetry; apply Z.ltb_ge; lia). auto. }
+  pose proof (by_slice_spec pl (Some a) (Some b) None _ Hs Hne Hp) as R.
+  replace (filter (fun kv => (a <=? fst kv - slice_start pl) && (fst kv - slice_start pl <? b)) pl)
+    with (filter (fun kv => memZ (fst kv - slice_start pl)
+                              (range_from (Z.to_nat n) (Z.min a n) (Z.min b n) 1)) pl); auto.
+  apply filter_ext_in. intros [i p] Hi. simpl.
+  specialize (Hmax i (in_map fst _ _ Hi)). simpl in Hmax.
+  destruct ((a <=? i - slice_start pl) && (i - slice_start pl <? b)) eqn:E.
+  - apply andb_true_iff in E. destruct E as [E1 E2]. apply Z.leb_le in E1. apply Z.ltb_lt in E2.
+    apply memZ_In, range_from_In_step1; lia.
+  - apply memZ_false. intros HI. apply range_from_In_step1 in HI; [|lia].
+    apply andb_false_iff in E. destruct E as [E|E]; [apply Z.leb_gt in E|apply Z.ltb_ge in E]; lia.
+Qed.
